@@ -114,9 +114,8 @@ namespace
             runtime.__logmsg(err::ReturningEmptyArray(runtime.context_active().current_frame().diag_info_from_position()));
             return std::make_shared<d_array>();
         }
-        // Get navigation path
+        // Get navigation path (the config itself and every enclosing class up to, but without, the root)
         std::vector<value> path;
-        path.push_back(nav->name);
         while (nav->id_parent_logical != config::invalid_id)
         {
             path.push_back(nav->name);
